@@ -986,3 +986,155 @@ Proof.
   destruct S as ((((((S1 & S2) & S3) & S4) & S5) & S6) & S7).
   apply Z.eqb_eq in S7. lia.
 Qed.
+
+(* ------------------------------------------------------------------ SetBTotal and the shared memory around a post *)
+Lemma create_time_mk_name t r : 0 <= t < 2147483648 -> create_time (mk_name 77 t r) = Some t.
+Proof.
+  intros Ht. unfold create_time, mk_name.
+  destruct (name_fields 77 (map dec_char (digitsB 10 10 t)) (map hexU_char (digitsB 16 3 r)))
+    as (_ & _ & _ & _ & ED & _); [rewrite map_length; apply digitsB_length | rewrite map_length; apply digitsB_length |].
+  cbv zeta in ED. rewrite ED.
+  rewrite atoi_digits.
+  2:{ intros E. apply (f_equal (@length Z)) in E. rewrite digitsB_length in E. discriminate. }
+  2:{ apply digitsB_range. lia. }
+  rewrite parse_digits by lia. change (10 ^ Z.of_nat 10) with 10000000000.
+  rewrite Z.mod_small by lia. rewrite wrap32_small by lia. reflexivity.
+Qed.
+
+Lemma mk_name_not_safedel t r : bytes_eqb (cprefix (mk_name 77 t r)) FN_SAFEDEL = false.
+Proof.
+  rewrite cprefix_mk_name. apply bytes_eqb_neq. intros E. apply (f_equal (@length Z)) in E.
+  rewrite name_body_length in E. discriminate.
+Qed.
+
+(* SetBTotal on the index a successful post leaves: Total = the value post_on records, LastPostTime = the time in
+   the new entry's name, no error — whatever LastPostTime was before *)
+Lemma set_btotal_after role u b q u' b' o old : in_range q -> lenZ (b_dir b) < 2147483648 * 128 - 128 ->
+  post_on role u b q = Ok (u', b', o) ->
+  exists t2 r2, 1000000000 <= t2 < 2147483648 /\ o_fn o = mk_name 77 t2 r2 /\
+    set_btotal (b_dir b') old = (b_total b', t2, false).
+Proof.
+  intros R B H.
+  destruct (header_fields _ _ _ _ _ _ _ R H) as (t2 & r2 & T2 & R2 & E & F).
+  cbv zeta in F. destruct F as (F28 & _).
+  destruct (index_grows _ _ _ _ _ _ _ H) as (L & D & _ & _).
+  destruct (total_after _ _ _ _ _ _ _ B H) as (TA & TB).
+  destruct (post_on_inv _ _ _ _ _ _ _ H) as (t1' & r1' & t2' & r2' & PF).
+  pose proof (pf_total _ _ _ _ _ _ _ _ _ _ _ PF) as PT. change ptttype.FILE_HEADER_RAW_SZ with 128 in PT.
+  exists t2, r2. split; [exact T2|]. split; [exact E|].
+  unfold set_btotal. change ptttype.FILE_HEADER_RAW_SZ with 128. change (Z.to_nat ptttype.FNLEN) with 28%nat.
+  rewrite <- PT. clear PT TA.
+  assert (P : 0 <= lenZ (b_dir b)) by (unfold lenZ; lia).
+  set (k := lenZ (b_dir b) / 128) in *.
+  assert (K : 0 <= k /\ k * 128 <= lenZ (b_dir b)) by (subst k; lia).
+  rewrite TB. destruct (Z.eqb_spec (k + 1) 0) as [Z0|_]; [lia|].
+  replace ((k + 1 - 1) * 128) with (k * 128) by lia. cbv zeta.
+  rewrite D. rewrite skipn_app_exact by (rewrite firstn_length; unfold lenZ in K; lia).
+  rewrite F28, mk_name_not_safedel, create_time_mk_name by lia. reflexivity.
+Qed.
+
+Lemma upd_upd {A} n (x y : A) l : upd n x (upd n y l) = upd n x l.
+Proof. revert n. induction l as [|a l IH]; intros [|n]; cbn; try reflexivity. rewrite IH. reflexivity. Qed.
+
+Lemma with_total_same b : with_total b (b_total b) = b.
+Proof. destruct b; reflexivity. Qed.
+
+Definition dir_small (b : board) : Prop := lenZ (b_dir b) < 2147483648 * 128 - 128.
+
+(* one post with the shared memory explicit: for EVERY value of BBusyState, of the per-board busy stamps, of
+   LastPostTime (and of the old Total: it is a field of the state) the post is the post of [post], SetBTotal raises
+   no error, the cached count is the index length, the flags are left alone, LastPostTime of the board becomes the
+   time in the new entry's name and that of every other board stays *)
+Lemma post_shm_spec sh st q sh' st' o err : in_range q -> req_ok st q = true ->
+  dir_small (brd st (Z.to_nat (q_board q))) ->
+  post_shm sh st q = Ok (sh', st', o, err) ->
+  let bi := Z.to_nat (q_board q) in
+  err = false /\ post st q = Ok (st', o) /\
+  b_total (brd st' bi) = lenZ (b_dir (brd st' bi)) / 128 /\
+  b_total (brd st' bi) = lenZ (b_dir (brd st bi)) / 128 + 1 /\
+  sh_bbusy sh' = sh_bbusy sh /\ sh_busyb sh' = sh_busyb sh /\
+  length (sh_lastpost sh') = length (sh_lastpost sh) /\
+  (forall j, j <> bi -> nth j (sh_lastpost sh') 0 = nth j (sh_lastpost sh) 0) /\
+  exists t2 r2, o_fn o = mk_name 77 t2 r2 /\ 1000000000 <= t2 < 2147483648 /\
+    ((bi < length (sh_lastpost sh))%nat -> nth bi (sh_lastpost sh') 0 = t2).
+Proof.
+  intros IR R S H bi. unfold post_shm in H. fold bi in H.
+  destruct (post st q) as [[st1 o1]| |] eqn:P; try discriminate.
+  destruct (post_step _ _ _ _ R P) as (u' & b' & Pon & EU & EB & LU & LB). fold bi in Pon, EB, LB.
+  assert (Bsame : nth bi (s_boards st1) dflt_board = b') by (rewrite EB; apply nth_upd_same; exact LB).
+  rewrite Bsame in H.
+  destruct (set_btotal_after _ _ _ _ _ _ _ (nth bi (sh_lastpost sh) 0) IR S Pon) as (t2 & r2 & T2 & E & SB).
+  rewrite SB in H. inversion H; subst sh' st' o err; clear H.
+  rewrite with_total_same, EB, upd_upd, <- EB.
+  assert (ST : mkState (s_users st1) (s_boards st1) = st1) by (destruct st1; reflexivity).
+  rewrite ST. cbn [sh_bbusy sh_busyb sh_lastpost].
+  destruct (total_after _ _ _ _ _ _ _ S Pon) as (TA & TB).
+  assert (B1 : brd st1 bi = b') by exact Bsame.
+  split; [reflexivity|]. split; [reflexivity|]. rewrite B1.
+  split; [exact TA|]. split; [exact TB|]. split; [reflexivity|]. split; [reflexivity|].
+  split; [apply upd_length|]. split; [intros j Hj; apply nth_upd_other; congruence|].
+  exists t2, r2. split; [exact E|]. split; [exact T2|]. intros Hl. apply nth_upd_same. exact Hl.
+Qed.
+
+(* histories: over any sequence of posts made under any condition of that shared memory, SetBTotal never raises its
+   error, the states are those of post_seq, the busy flags are never written, and every board that was in sync
+   before or was posted to has its cached count equal to its index length at the end *)
+Definition synced (b : board) : Prop := b_total b = lenZ (b_dir b) / 128.
+
+Lemma post_dir_growth st q st' o i : req_ok st q = true -> post st q = Ok (st', o) ->
+  lenZ (b_dir (brd st' i)) <= lenZ (b_dir (brd st i)) + 128.
+Proof.
+  intros R P. destruct (post_step _ _ _ _ R P) as (u' & b' & Pon & EU & EB & LU & LB).
+  destruct (Nat.eq_dec i (Z.to_nat (q_board q))) as [->|Hi].
+  - unfold brd at 1. rewrite EB, nth_upd_same by exact LB.
+    destruct (index_grows _ _ _ _ _ _ _ Pon) as (L & D & _ & _). fold (brd st (Z.to_nat (q_board q))) in D.
+    rewrite D. unfold lenZ. rewrite app_length, firstn_length, L. lia.
+  - unfold brd. rewrite EB, nth_upd_other by congruence. lia.
+Qed.
+
+Lemma sequence_shm qs : forall sh st sh' st' os err,
+  Forall in_range qs -> forallb (req_ok st) qs = true ->
+  (forall i, lenZ (b_dir (brd st i)) + 128 * lenZ qs < 2147483648 * 128) ->
+  post_seq_shm sh st qs = Ok (sh', st', os, err) ->
+  err = false /\ post_seq st qs = Ok (st', os) /\
+  sh_bbusy sh' = sh_bbusy sh /\ sh_busyb sh' = sh_busyb sh /\
+  (forall i, synced (brd st i) \/ In i (map (fun q => Z.to_nat (q_board q)) qs) -> synced (brd st' i)).
+Proof.
+  induction qs as [|q qs IH]; intros sh st sh' st' os err IR R S H.
+  - cbn [post_seq_shm] in H. inversion H; subst. cbn [post_seq map In].
+    repeat split; try reflexivity. intros i [Hs|[]]. exact Hs.
+  - cbn [forallb] in R. apply andb_true_iff in R. destruct R as [Rq Rs].
+    inversion IR as [|? ? IRq IRs]; subst.
+    assert (Sq : dir_small (brd st (Z.to_nat (q_board q)))).
+    { unfold dir_small. specialize (S (Z.to_nat (q_board q))). unfold lenZ in *. cbn [length] in S. lia. }
+    cbn [post_seq_shm] in H.
+    destruct (post_shm sh st q) as [[[[sh1 st1] o1] e1]| |] eqn:P; try discriminate.
+    destruct (post_shm_spec _ _ _ _ _ _ _ IRq Rq Sq P) as (E1 & P1 & T1 & _ & F1 & F2 & _ & _ & _).
+    subst e1.
+    destruct (post_seq_shm sh1 st1 qs) as [[[[sh2 st2] os2] e2]| |] eqn:PS; try discriminate.
+    inversion H; subst sh' st' os err; clear H.
+    assert (Rs' : forallb (req_ok st1) qs = true).
+    { rewrite forallb_forall in *. intros q2 Hq2. rewrite (req_ok_step _ _ _ _ q2 Rq P1). apply Rs. exact Hq2. }
+    assert (S' : forall i, lenZ (b_dir (brd st1 i)) + 128 * lenZ qs < 2147483648 * 128).
+    { intros i. pose proof (post_dir_growth _ _ _ _ i Rq P1) as G. specialize (S i).
+      unfold lenZ in *. cbn [length] in S. lia. }
+    destruct (IH _ _ _ _ _ _ IRs Rs' S' PS) as (E2 & P2 & G1 & G2 & Y).
+    split; [exact E2|]. split; [cbn [post_seq]; rewrite P1, P2; reflexivity|].
+    split; [rewrite G1; exact F1|]. split; [rewrite G2; exact F2|].
+    intros i Hi. apply Y. cbn [map In] in Hi.
+    destruct (Nat.eq_dec (Z.to_nat (q_board q)) i) as [<-|Ne].
+    + left. exact T1.
+    + destruct Hi as [Hs|[Hh|Ht]]; [left|congruence|right; exact Ht].
+      destruct (post_frame _ _ _ _ Rq P1) as (Bo & _). rewrite Bo by congruence. exact Hs.
+Qed.
+
+(* non-vacuity: the example state and requests, with the busy flag left set, a per-board busy stamp, a stale
+   LastPostTime; and the example boards' cached counts are stale (ex_boards) *)
+Definition ex_shm : shm := mkShm 1 [1790836246; 0] [2147483647; 1].
+Example ex_post_shm_ok :
+  match post_seq_shm ex_shm ex_state [ex_req1; ex_req2; ex_req3; ex_req1] with
+  | Ok (sh', st', os, err) => err = false /\ sh_bbusy sh' = 1 /\ length os = 4%nat /\
+                              forallb (fun b => b_total b =? lenZ (b_dir b) / 128) (s_boards st') = true
+  | _ => False
+  end.
+Proof. vm_compute. repeat split; reflexivity. Qed.
